@@ -76,6 +76,7 @@ def run(ctx) -> None:
     ctx.reuse("C07.broadcast", c04.pairing_family)
     ctx.reuse("C07.partition", c18.grouping)
     ctx.reuse("C07.partition", c18.sorting)
+    ctx.reuse("C07.partition", c18.optimize)
     # split volumes add up to the requested volume, and every partition of every row is visited
     from . import c06
 
